@@ -39,7 +39,7 @@ THEOREMS = [
     'C09_normalize_float_normal_form', 'C09_normalize_float_classes',
     'C09_normalize_float_exponent_padding_refuted', 'C09_normal_form_fixed',
     'C09_parse_material_classes', 'C09_pot_fill_provenance',
-    'C09_provenance_head_is_leaf', 'C09_geomcomp_name',
+    'C09_provenance_head_is_leaf', 'C09_lattice_elements', 'C09_geomcomp_name',
     'C09_geomcomp_one_line', 'C09_geomcomp_lines', 'C09_compositions_exact',
     'C09_compositions_distinct', 'C09_geomcomp_name_has_composition',
     'C09_material_leading_zero_refuted',
